@@ -52,6 +52,12 @@ C22_BREAKS = {
                             "asserted-statement-lost:iterative-backward:protected-statement-removed"],
     "statement-rewritten": ["new-statement-appeared:"],
 }
+# proposed repairs (monkeypatched inside the driver child): the named witness key of the unchanged tree must disappear,
+# every other key must stay (attribution of the mechanisms is independent)
+C22_FIXES = {
+    "PROPOSED_FIX_remove-unused-keeps-asserted": ["asserted-statement-lost:remove_unused_variables"],
+    "PROPOSED_FIX_combined-protection": ["asserted-statement-lost:combined-ignores-protection"],
+}
 C22_RUNS = [
     {"sut": "tri", "algorithm": "DYNAMOSA", "seed": 100, "iterations": 6, "assertion_generation": "SIMPLE", "strategy": "CASE", "direction": "FORWARD"},
     {"sut": "queue_", "algorithm": "MOSA", "seed": 101, "iterations": 6, "assertion_generation": "SIMPLE", "strategy": "CASE", "direction": "BACKWARD",
@@ -153,7 +159,7 @@ def main(argv):
                     jobs[("c21", "pipe", b)] = ex.submit(run_pipeline_part, "checks.c21_assertion_minimization", C21_RUNS, b)
         if any(s.startswith("c22") for s in sel):
             jobs[("c22", "pipe", None)] = ex.submit(run_pipeline_part, "checks.c22_minimization_coverage", C22_RUNS, None)
-            for b in C22_BREAKS:
+            for b in list(C22_BREAKS) + list(C22_FIXES):
                 if wanted("c22", b):
                     jobs[("c22", "pipe", b)] = ex.submit(run_pipeline_part, "checks.c22_minimization_coverage", C22_RUNS, b)
         if any(s.startswith("c35") for s in sel):
@@ -168,6 +174,13 @@ def main(argv):
             print(f"[{check}/{part}] unchanged tree: keys {json.dumps(got)}" + (f"  inconclusive: {incon[:2]}" if incon else ""))
             continue
         baseline = results[(check, part, None)][0]
+        if check == "c22" and brk in C22_FIXES:
+            gone = [k for k in C22_FIXES[brk] if k in baseline and k not in got]
+            others_kept = all(k in got for k in baseline if k not in C22_FIXES[brk])
+            good = len(gone) == len(C22_FIXES[brk]) and others_kept
+            print(f"[{check}/{part}] fix   {brk:38s} {'KEY GONE' if good else 'NOT EFFECTIVE'}  keys now: {json.dumps(got)}")
+            ok &= good
+            continue
         expected = {"c21": lambda b: C21_BREAKS[b][1], "c22": lambda b: C22_BREAKS[b], "c35": lambda b: C35_BREAKS[b]}[check](brk)
         ok &= judge(f"{check}/{part}", brk, got, baseline, expected, incon)
     print("SELFTEST", "PASSED" if ok else "FAILED")
